@@ -57,6 +57,7 @@ impl CloseValue for FirstField {
         if let Some(e) = &self.1 {
             e.close_begin.store(tick(), SeqCst);
         }
+        c06::set_in_close(true);
         self.0.close()
     }
 }
@@ -104,6 +105,7 @@ impl<T: Entry> EntrySink<T> for Sink13 {
         let te = to_test_entry(&entry);
         let get = |k: &str| te.values.get(k).map(|s| parse_log(s));
         let r = Rec { log: get("log").unwrap_or_default(), slots: [get("a_log"), get("b_log"), get("c_log")] };
+        c06::set_in_close(false);
         self.records.lock().unwrap().push(r);
         self.seqs.lock().unwrap().push(c06::current_step());
         if let Some(e) = &self.events {
@@ -184,6 +186,10 @@ pub struct World {
     pub sink: Sink13,
     pub rets: Vec<Ret>,
     pub panicked: bool,
+    /// bookkeeping for the free-running checks: content written through each guard, whether it holds a flush guard
+    pub gcontent: [Vec<u64>; NSLOTS],
+    pub gholds: [bool; NSLOTS],
+    pub applied_muts: Vec<u64>,
 }
 
 impl World {
@@ -199,7 +205,8 @@ impl World {
         };
         let owner = e.append_on_drop(sink.clone());
         World { owners: vec![OwnerRef::Direct(Box::new(owner))], fgs: vec![], ffs: vec![], guards: [None, None, None],
-                waiting: None, sink, rets: vec![], panicked: false }
+                waiting: None, sink, rets: vec![], panicked: false,
+                gcontent: Default::default(), gholds: [false; NSLOTS], applied_muts: vec![] }
     }
     fn direct(&mut self) -> Option<&mut Owner> {
         if self.waiting.is_some() {
@@ -241,11 +248,13 @@ impl World {
                         Some(OwnerRef::Direct(o)) => {
                             let e: &mut E13 = &mut **o;
                             e.log.0.push_mut(v);
+                            self.applied_muts.push(v);
                         }
                         Some(OwnerRef::Handle(_)) => {
                             let k = (v as usize) % self.owners.len();
                             if let OwnerRef::Handle(h) = &self.owners[k] {
                                 h.log.0.push(v);
+                                self.applied_muts.push(v);
                             }
                         }
                         None => {}
@@ -295,18 +304,21 @@ impl World {
                 self.rets.push(Ret::Guard(g.is_some()));
                 if let Some(g) = g {
                     self.guards[i] = Some(g);
+                    self.gholds[i] = w;
                 }
             }
             Op::SlotMut(i, v) => {
                 if let Some(Some(g)) = self.guards.get_mut(i) {
                     let sv: &mut SV = &mut *g;
                     sv.log.push_mut(v);
+                    self.gcontent[i].push(v);
                 }
             }
             Op::DelayFlush(i) => {
                 if i < NSLOTS && self.guards[i].is_some() && !self.fgs.is_empty() {
                     let fg = self.fgs.pop().unwrap();
                     self.guards[i].as_mut().unwrap().delay_flush(fg);
+                    self.gholds[i] = true;
                 }
             }
             Op::WaitPoll(i) => {
@@ -385,6 +397,29 @@ pub fn seq_case(ops: &[Op]) -> Sx {
 
 pub fn exec(case: &Sx) -> (Sx, bool) {
     match case.tag() {
+        1 => {
+            let setup: Vec<Op> = case.arg(1).list().iter().map(dec_op).collect();
+            let prog = dec_prog(case.arg(2));
+            let tids: Vec<usize> = case.arg(3).list().iter().map(|x| x.num() as usize).collect();
+            let (mut pos, mut diverged) = (0usize, false);
+            let (out, _, _) = {
+                let mut ch = follow(&tids, &mut pos, &mut diverged);
+                exec_threads(&setup, &prog, &mut ch)
+            };
+            let out = if diverged {
+                let mut v = out.list().to_vec();
+                v[4] = sx::boolean(false);
+                Sx::L(v)
+            } else {
+                out
+            };
+            (out, true)
+        }
+        2 => {
+            let setup: Vec<Op> = case.arg(1).list().iter().map(dec_op).collect();
+            let prog = dec_prog(case.arg(2));
+            (sx::boolean(exec_stress(&setup, &prog, case.arg(3).num() as u64).is_ok()), true)
+        }
         _ => {
             let ops: Vec<Op> = case.arg(1).list().iter().map(dec_op).collect();
             let opened = ops.iter().any(|o| matches!(o, Op::Open(..)));
@@ -392,6 +427,305 @@ pub fn exec(case: &Sx) -> (Sx, bool) {
             (exec_seq(&ops), opened && dropped)
         }
     }
+}
+
+
+// ---------------------------------------------------------------------------------------------- threads
+
+fn dec_prog(x: &Sx) -> Vec<(usize, Op)> {
+    x.list().iter().map(|e| (e.list()[0].num() as usize, dec_op(&e.list()[1]))).collect()
+}
+fn enc_prog(prog: &[(usize, Op)]) -> Sx {
+    Sx::L(prog.iter().map(|(t, o)| Sx::L(vec![sx::n(*t as u64), enc_op(o)])).collect())
+}
+fn enc_shape() -> Sx {
+    Sx::L(SHAPE.iter().map(|&b| sx::boolean(b)).collect())
+}
+fn thread_case(setup: &[Op], prog: &[(usize, Op)], tids: &[usize]) -> Sx {
+    sx::tag(1, vec![enc_shape(), Sx::L(setup.iter().map(enc_op).collect()), enc_prog(prog),
+                    Sx::L(tids.iter().map(|&t| sx::n(t as u64)).collect())])
+}
+fn stress_case(setup: &[Op], prog: &[(usize, Op)], seed: u64) -> Sx {
+    sx::tag(2, vec![enc_shape(), Sx::L(setup.iter().map(enc_op).collect()), enc_prog(prog), sx::n(seed)])
+}
+
+/// Times (global event order) of a slot guard's drop in a free-running run.
+#[derive(Clone, Default)]
+struct DropRec {
+    begin: u64,
+    end: u64,
+    holds: bool,
+    content: Vec<u64>,
+}
+
+/// An action by one thread on the shared world: the object is taken out under the world lock, the drop itself
+/// (which may park at sync points) runs outside it.
+fn apply_shared(world: &Arc<Mutex<World>>, op: Op, drops: Option<&Mutex<Vec<(usize, DropRec)>>>, force_begin: Option<&AtomicU64>) {
+    let mut rec: Option<(usize, DropRec)> = None;
+    let doomed = {
+        let mut w = world.lock().unwrap();
+        let d = w.take_doomed(op);
+        if d.is_some() {
+            if let Op::DropGuard(i) = op {
+                rec = Some((i, DropRec { begin: tick(), end: 0, holds: w.gholds[i], content: w.gcontent[i].clone() }));
+            }
+            if let (Op::K(KOp::DropForce(_)), Some(fb)) = (op, force_begin) {
+                let _ = fb.compare_exchange(0, tick(), SeqCst, SeqCst);
+            }
+        } else {
+            w.apply_nondrop(op);
+        }
+        d
+    };
+    drop(doomed);
+    if let (Some((i, mut r)), Some(d)) = (rec, drops) {
+        r.end = tick();
+        d.lock().unwrap().push((i, r));
+    }
+}
+
+/// One scheduled run: `setup` on the calling thread, then the per-thread programs under `choose`.
+fn exec_threads(setup: &[Op], prog: &[(usize, Op)], choose: &mut dyn FnMut(&[usize]) -> usize) -> (Sx, Vec<usize>, Vec<usize>) {
+    let nthreads = prog.iter().map(|(t, _)| *t + 1).max().unwrap_or(0);
+    let mut w = World::new(None);
+    for &op in setup {
+        w.apply(op);
+    }
+    let sink = w.sink.clone();
+    let world = Arc::new(Mutex::new(w));
+    let progs: Vec<Vec<Op>> = (0..nthreads).map(|t| prog.iter().filter(|(x, _)| *x == t).map(|(_, o)| *o).collect()).collect();
+    let w2 = world.clone();
+    let body: Arc<dyn Fn(usize) + Send + Sync> = Arc::new(move |tid| {
+        for &op in &progs[tid] {
+            sync_point("op");
+            apply_shared(&w2, op, None, None);
+        }
+    });
+    let (trace, branching, ok) = c06::Sched::run(nthreads, body, &c06::keepalive_blocked, choose);
+    let recs = sink.records.lock().unwrap().clone();
+    let seqs = sink.seqs.lock().unwrap().clone();
+    // records appended during the setup carry step 0: they count from the first grant on
+    let mut obs = vec![];
+    for (j, (_t, name)) in trace.iter().enumerate() {
+        let cnt = seqs.iter().filter(|&&b| b <= j).count();
+        obs.push(Sx::L(vec![sx::n(c06::point_code(name)), sx::n(cnt as u64)]));
+    }
+    let tids: Vec<usize> = trace.iter().map(|(t, _)| *t).collect();
+    let (rets, panicked) = {
+        let w = world.lock().unwrap();
+        (w.rets.clone(), w.panicked)
+    };
+    let out = Sx::L(vec![Sx::L(obs), Sx::L(rets.iter().map(|r| r.enc()).collect()), Sx::L(recs.iter().map(|r| r.enc()).collect()),
+                         sx::boolean(panicked), sx::boolean(ok)]);
+    cleanup(world);
+    (out, branching, tids)
+}
+
+fn cleanup(world: Arc<Mutex<World>>) {
+    let _ = std::panic::catch_unwind(std::panic::AssertUnwindSafe(move || {
+        let mut w = world.lock().unwrap();
+        w.waiting = None;
+        for g in w.guards.iter_mut() { *g = None; }
+        w.owners.clear();
+        w.fgs.clear();
+        w.ffs.clear();
+    }));
+}
+
+fn follow<'a>(tids: &'a [usize], pos: &'a mut usize, diverged: &'a mut bool) -> impl FnMut(&[usize]) -> usize + 'a {
+    move |runnable: &[usize]| {
+        let want = tids.get(*pos).copied();
+        *pos += 1;
+        match want {
+            Some(t) if runnable.contains(&t) => t,
+            _ => {
+                *diverged = true;
+                runnable[0]
+            }
+        }
+    }
+}
+
+fn explore(out: &mut Out, setup: &[Op], prog: &[(usize, Op)], limit: usize, rng: &mut Rng, label: &str) {
+    let mut choices: Vec<usize> = vec![];
+    let mut runs = 0usize;
+    let mut exhausted = false;
+    loop {
+        let mut pos = 0usize;
+        let cv = choices.clone();
+        let mut choose = |runnable: &[usize]| {
+            let c = cv.get(pos).copied().unwrap_or(0);
+            pos += 1;
+            runnable[c.min(runnable.len() - 1)]
+        };
+        let (imp, branching, tids) = exec_threads(setup, prog, &mut choose);
+        out.case(&thread_case(setup, prog, &tids), &imp, true);
+        out.count(&format!("sched_dfs_{label}"));
+        runs += 1;
+        let mut full: Vec<usize> = (0..branching.len()).map(|j| cv.get(j).copied().unwrap_or(0)).collect();
+        let mut j = full.len();
+        loop {
+            if j == 0 {
+                exhausted = true;
+                break;
+            }
+            j -= 1;
+            if full[j] + 1 < branching[j] {
+                full[j] += 1;
+                full.truncate(j + 1);
+                break;
+            }
+        }
+        if exhausted || runs >= limit {
+            break;
+        }
+        choices = full;
+    }
+    if exhausted {
+        out.count(&format!("sched_space_exhausted_{label}"));
+    } else {
+        for _ in 0..limit {
+            let mut r = rng.fork();
+            let mut choose = |runnable: &[usize]| runnable[r.below(runnable.len() as u64) as usize];
+            let (imp, _, tids) = exec_threads(setup, prog, &mut choose);
+            out.case(&thread_case(setup, prog, &tids), &imp, true);
+            out.count(&format!("sched_random_{label}"));
+        }
+    }
+}
+
+/// Free-running real threads, sync points perturbed by seeded yields; judged by the predicate only.
+fn exec_stress(setup: &[Op], prog: &[(usize, Op)], seed: u64) -> Result<(), String> {
+    c06::install_controller();
+    let nthreads = prog.iter().map(|(t, _)| *t + 1).max().unwrap_or(0);
+    let events = Arc::new(Events::default());
+    let drops: Arc<Mutex<Vec<(usize, DropRec)>>> = Arc::new(Mutex::new(vec![]));
+    let force_begin = Arc::new(AtomicU64::new(0));
+    let mut w = World::new(Some(events.clone()));
+    let world_tmp = Arc::new(Mutex::new(std::mem::replace(&mut w, World::new(None))));
+    drop(w);
+    let world = world_tmp;
+    for &op in setup {
+        apply_shared(&world, op, Some(&drops), Some(&force_begin));
+    }
+    let sink = world.lock().unwrap().sink.clone();
+    let barrier = Arc::new(std::sync::Barrier::new(nthreads));
+    let mut joins = vec![];
+    for tid in 0..nthreads {
+        let ops: Vec<Op> = prog.iter().filter(|(x, _)| *x == tid).map(|(_, o)| *o).collect();
+        let (w2, d2, f2, b2) = (world.clone(), drops.clone(), force_begin.clone(), barrier.clone());
+        joins.push(std::thread::spawn(move || {
+            c06::set_perturb(Some(Rng::new(seed ^ ((tid as u64 + 1) << 32))));
+            b2.wait();
+            for &op in &ops {
+                sync_point("op");
+                apply_shared(&w2, op, Some(&d2), Some(&f2));
+            }
+            c06::set_perturb(None);
+        }));
+    }
+    for j in joins {
+        j.join().map_err(|_| "a thread panicked".to_string())?;
+    }
+    // drop what is left: the pending future, the guards (in slot order), then owners and keep-alive guards
+    world.lock().unwrap().waiting = None;
+    for i in 0..NSLOTS {
+        apply_shared(&world, Op::DropGuard(i), Some(&drops), Some(&force_begin));
+    }
+    loop {
+        let more = { let w = world.lock().unwrap(); !w.owners.is_empty() };
+        if !more { break; }
+        apply_shared(&world, Op::K(KOp::DropOwner(0)), Some(&drops), Some(&force_begin));
+    }
+    loop {
+        let more = { let w = world.lock().unwrap(); !w.fgs.is_empty() };
+        if !more { break; }
+        apply_shared(&world, Op::K(KOp::DropFlush(0)), Some(&drops), Some(&force_begin));
+    }
+    loop {
+        let more = { let w = world.lock().unwrap(); !w.ffs.is_empty() };
+        if !more { break; }
+        apply_shared(&world, Op::K(KOp::DropForce(0)), Some(&drops), Some(&force_begin));
+    }
+    let recs = sink.records.lock().unwrap().clone();
+    if recs.len() != 1 {
+        return Err(format!("{} entries appended after everything was dropped", recs.len()));
+    }
+    let r = &recs[0];
+    let mut got = r.log.clone();
+    got.sort();
+    let mut want = world.lock().unwrap().applied_muts.clone();
+    want.sort();
+    if got != want {
+        return Err(format!("the entry's own fields {:?} differ from the mutations made {:?}", got, want));
+    }
+    let e = &events;
+    let window_begin = |i: usize| if i == 0 { e.close_begin.load(SeqCst) } else { e.field_sync[i - 1].load(SeqCst) };
+    let window_end = |i: usize| if i < 2 { e.field_sync[i].load(SeqCst) } else { e.appended.load(SeqCst) };
+    let fb = force_begin.load(SeqCst);
+    let drops = drops.lock().unwrap().clone();
+    for i in 0..NSLOTS {
+        let d = drops.iter().find(|(j, _)| *j == i).map(|(_, d)| d.clone());
+        match d {
+            None => {
+                if r.slots[i].is_some() {
+                    return Err(format!("slot {i} present although its guard was never handed out"));
+                }
+            }
+            Some(d) => {
+                if let Some(v) = &r.slots[i] {
+                    if *v != d.content {
+                        return Err(format!("slot {i} contains {:?}, the guard held {:?}", v, d.content));
+                    }
+                    if d.begin > window_end(i) {
+                        return Err(format!("slot {i} present although its guard began dropping after the slot was closed"));
+                    }
+                } else {
+                    if d.end < window_begin(i) {
+                        return Err(format!("slot {i} absent although its guard was dropped before the parent began closing it"));
+                    }
+                    if d.holds && (fb == 0 || fb > d.end) {
+                        return Err(format!("slot {i} absent although its guard held the flush guard and no force-flush guard had been dropped"));
+                    }
+                }
+            }
+        }
+    }
+    Ok(())
+}
+
+/// Configurations for the window the property names: send, then release, against the parent's close elsewhere.
+fn curated() -> Vec<(&'static str, Vec<Op>, Vec<(usize, Op)>)> {
+    use KOp::*;
+    use Op::*;
+    vec![
+        // wait mode, parent and guard on different threads, plus a force guard on a third
+        ("wait_force", vec![K(NewFlush), K(NewForce), Open(0, true), SlotMut(0, 7), K(Mutate(1))],
+         vec![(0, K(DropOwner(0))), (1, SlotMut(0, 8)), (1, DropGuard(0)), (2, K(DropForce(0)))]),
+        // discard mode: the two-instruction window against the close
+        ("discard_race", vec![Open(0, false), SlotMut(0, 7), Open(2, false), SlotMut(2, 9)],
+         vec![(0, K(Mutate(2))), (0, K(DropOwner(0))), (1, DropGuard(0)), (2, DropGuard(2))]),
+        // two wait-mode slots released from two threads, owner dropped on a third
+        ("two_waits", vec![K(NewFlush), K(NewFlush), Open(0, true), Open(1, true), SlotMut(1, 5)],
+         vec![(0, K(DropOwner(0))), (1, DropGuard(0)), (2, DropGuard(1))]),
+        // delay_flush after the parent was dropped (the integration test's shape), lazy slot
+        ("delay_flush_lazy", vec![Open(2, false), K(NewFlush), K(NewForce)],
+         vec![(0, DelayFlush(2)), (0, K(DropOwner(0))), (1, SlotMut(2, 3)), (1, DropGuard(2)), (2, K(DropForce(0)))]),
+        // discard + wait mixed, last user flush guard on its own thread
+        ("mixed", vec![K(NewFlush), K(NewFlush), Open(0, true), Open(1, false)],
+         vec![(0, K(DropOwner(0))), (0, K(DropFlush(0))), (1, DropGuard(0)), (2, DropGuard(1))]),
+    ]
+}
+
+fn random_config(rng: &mut Rng) -> (Vec<Op>, Vec<(usize, Op)>) {
+    let len = rng.range(4, 12) as usize;
+    let ops = random_history(rng, len);
+    let cut = rng.range(1, (ops.len() as u64).saturating_sub(2).max(1)) as usize;
+    let nthreads = rng.range(2, 3);
+    let cut = cut.min(ops.len());
+    let setup = ops[..cut].to_vec();
+    let prog = ops[cut..].iter().map(|o| (rng.below(nthreads) as usize, *o)).collect();
+    (setup, prog)
 }
 
 // ---------------------------------------------------------------------------------------------- generation
@@ -626,11 +960,24 @@ pub fn run(ctx: &Ctx) {
         let (imp, nt) = exec(&case);
         out.case(&case, &imp, nt);
     };
+    let mut tout = Out::new(ctx, "-t");
     if let Some(p) = &ctx.replay {
         for line in std::fs::read_to_string(p).unwrap().lines().filter(|l| l.starts_with('(')) {
-            emit(&mut out, sx::parse(line));
+            let case = sx::parse(line);
+            if case.tag() == 0 {
+                emit(&mut out, case);
+            } else {
+                if case.tag() == 2 {
+                    let setup: Vec<Op> = case.arg(1).list().iter().map(dec_op).collect();
+                    if let Err(e) = exec_stress(&setup, &dec_prog(case.arg(2)), case.arg(3).num() as u64) {
+                        tout.fail(format!("free-running threads: {e}"), &case);
+                    }
+                }
+                emit(&mut tout, case);
+            }
         }
         out.finish("replay");
+        tout.finish("replay");
         return;
     }
     // exhaustive: one slot of each kind, every complete history within the caps
@@ -664,5 +1011,40 @@ pub fn run(ctx: &Ctx) {
         out.count("random_histories");
         emit(&mut out, seq_case(&ops));
     }
+    // scheduled multi-thread runs
+    let limit = if ctx.tier_thorough { 4000 } else { 300 };
+    for (label, setup, prog) in curated() {
+        explore(&mut tout, &setup, &prog, limit, &mut rng, label);
+    }
+    let nconf = if ctx.tier_thorough { 800 } else { 150 };
+    for _ in 0..nconf {
+        let (setup, prog) = random_config(&mut rng);
+        for _ in 0..(if ctx.tier_thorough { 12 } else { 4 }) {
+            let mut r = rng.fork();
+            let mut choose = |runnable: &[usize]| runnable[r.below(runnable.len() as u64) as usize];
+            let (imp, _, tids) = exec_threads(&setup, &prog, &mut choose);
+            tout.case(&thread_case(&setup, &prog, &tids), &imp, true);
+            tout.count("sched_random_config");
+        }
+    }
+    // free-running stress, predicate only
+    let nstress = if ctx.tier_thorough { 400 } else { 50 };
+    let mut confs: Vec<(Vec<Op>, Vec<(usize, Op)>)> = curated().into_iter().map(|(_, a, b)| (a, b)).collect();
+    for _ in 0..15 {
+        confs.push(random_config(&mut rng));
+    }
+    for (setup, prog) in &confs {
+        for _ in 0..nstress {
+            let seed = rng.next();
+            let case = stress_case(setup, prog, seed);
+            let r = exec_stress(setup, prog, seed);
+            if let Err(e) = &r {
+                tout.fail(format!("free-running threads: {e}"), &case);
+            }
+            tout.case(&case, &sx::boolean(r.is_ok()), true);
+            tout.count("stress_runs");
+        }
+    }
+    tout.finish("multi-thread: per configuration (curated: wait mode vs force guard vs parent on three threads, the send/release window against the parent's close in discard mode, two wait-mode slots, delay_flush on a lazy slot; plus random ones) every schedule at sync-point granularity depth-first up to the tier's limit, then seeded random schedules; plus free-running real threads with perturbation at the sync points (predicate only); every case non-trivial");
     out.finish("sequential: every complete history within each exhaustive configuration's caps (Slot alone with wait_for_data and delay_flush; Slot + LazySlot; LazySlot + Slot with handles) plus random longer ones over all three slots; non-trivial = a slot is opened and an owner dropped; distinct by hash of the case");
 }
